@@ -683,6 +683,14 @@ def check_C01(ctx):
                             lambda rng: gen_core_prog(rng, reap=('JN', 'JN', 'JN', 'TJ')),
                             NWS_QUICK if ctx.quick else NWS_THOROUGH)
     res, fails = traced_check(ctx, binary, progs, runs, CORE_INV)
+    # the same library with a 16-entry run queue: fork-join programs (fans of parent-first children, deep spawn trees)
+    # whose queues reach the end of the array and are re-centred while they hold threads
+    libq = build_lib('libq16', '-DINITIAL_QUEUE_SIZE=16')
+    binq = build_harness(libq, 'mythprog_q16', ['mythprog.c'])
+    ctx.seed += 1000
+    progs2, runs2 = core_runs(ctx, 16 if ctx.quick else 160, 4, gen_queue_prog, NWS_QUICK if ctx.quick else NWS_THOROUGH)
+    ctx.seed -= 1000
+    traced_check(ctx, binq, progs2, runs2, CORE_INV, label='q')
     g = first_good(res, fails)
     if g:
         bind_selftest(ctx, g, CORE_INV, [
